@@ -904,6 +904,8 @@ def cases(tier):
         # cross-method
         Cross("polyauto", 2, 1), Cross("poly", 2, 1), Cross("polyauto", 2, 1, layout="F"),
         Cross("polyauto", 2, 1, subdiv="none"),
+        # two systems with DIFFERENT baths (separate symbolic influence matrices I0*, I1*): system s must use bath s
+        Mft("poly", 2, 1, dims=(2, 2), coupling="sparse"), Cross("polyauto", 2, 1, dims=(2, 2)),
         Mft("poly", 2, 1, coupling="sparse", layout="F"),
         H2(None), H2(4), H2D(None, 1), H2D(4, 2),
     ]
